@@ -112,9 +112,25 @@ def run_for_property(prop, out=sys.stdout):
     return 0
 
 
+def baseline_ok(ms, out=sys.stdout):
+    """The rules the variants name must pass on the unmodified tree, otherwise `fired` means nothing."""
+    bad = set()
+    for prop, rule in sorted({(m["property"], m["rule"]) for m in ms}):
+        r = subprocess.run([sys.executable, os.path.join(VERIF, "check"), prop, "--rule", rule, "--configs", "dbg"],
+                           cwd=VERIF, stdout=subprocess.PIPE, stderr=subprocess.STDOUT, text=True)
+        if r.returncode != 0:
+            print("BASELINE-BROKEN %s %s\n%s" % (prop, rule, r.stdout[-600:]), file=out)
+            bad.add((prop, rule))
+    return bad
+
+
 if __name__ == "__main__":
     names = set(sys.argv[1:])
     ms = [m for m in load_index() if not names or m["name"] in names or m["property"] in names]
+    broken = baseline_ok(ms)
+    if broken:
+        print("baseline broken for %s; fix the rules first" % sorted(broken))
+        sys.exit(2)
     res = run(ms, workers=int(os.environ.get("VERIF_SELFTEST_WORKERS", "4")))
     bad = [r for r in res if r["status"] != "fired"]
     for r in bad:
